@@ -702,7 +702,7 @@ def populate_context(ctx, sk, cfi, C, M):
     uc.splice('push_row', ret='res', canary=True, **contract('push_row'),
               before=[('let new_row = self.row().clone();', 'proof { broadcast use group_seq_abs; }')])
     uc.splice('pop_row', ret='res', canary=True, **contract('pop_row'),
-              before=[('let min_size = if', 'proof { broadcast use group_seq_abs; }')])
+              before=[('if self.stack.len() <=', 'proof { broadcast use group_seq_abs; }')])
     uc.own(OWN_CTX)
     sk.add('read::cfi', uc)
 
